@@ -119,7 +119,15 @@ def _second_opinion(mod, prop, a, seed, run, out, err):
                             todo.append(c)
                 return out
 
-            v2 = [v for v in r2.violations if qual(v["where"]) not in dup]
+            # ... but only when the rule does say something about those statements in a caller (as a finding or as a listed
+            # known finding); a rule that is anchored on the helper itself keeps its finding there
+            said = {(x["rule"], qual(x["where"])) for x in r2.violations + r2.known}
+
+            def is_dup(v):
+                q = qual(v["where"])
+                return q in dup and any((v["rule"], c) in said for c in related(q) if c != q)
+
+            v2 = [v for v in r2.violations if not is_dup(v)]
             bad2 = {(v["rule"], v["key"]) for v in v2} | {(v["rule"], qual(v["where"])) for v in v2}
             # a finding located in a helper stands when the normal form shows a finding of the same rule in any function
             # that received the helper's statements
